@@ -180,7 +180,7 @@ class E5Reviews:
         return res
 
 
-class C07(E5Reviews):
+class C07Base(E5Reviews):
     ID = 'C07'
     RULE = ('one evaluation = one seeded history of comments (option/'
             'command grammar from the live registry, 3 syntaxes, separators, '
@@ -194,3 +194,10 @@ class C07(E5Reviews):
 
     def checks(self):
         return [check_c07]
+
+
+from .taps import TapMixin, ReviewTapC07  # noqa: E402
+
+
+class C07(TapMixin, C07Base):
+    TAP_CLASS = ReviewTapC07
